@@ -353,9 +353,9 @@ def _run(v, tier, seed, quick):
                     if v.drift <= 3: vlib.log("DRIFT property=C09 behaviour %s of %s: %s" % (r.get("behaviour"), info["instance"], r["drift"][:300]))
         hits, clean = f_dir.result()
         notes["known_finding_directed"] = {"id": "HputBeforeAlias", "reproduced": len(hits), "clean": clean}
-        if hits:
+        if hits:       # the finding is repaired (known_findings.json: fixed): judged like every other case
             if not v.known_finding("HputBeforeAlias", "PutBefore / PutBehind with a reference key that aliases the table's own key storage, Put reallocates: " + hits[0][:200]):
-                violation("PutBefore(k, *t.GetFirstKey(), v) on a full table: " + hits[0], {"argv": [ht, "directed", "putbefore-alias"]}, "directed")
+                violation("directed case PutBefore(k, *t.GetFirstKey(), v) / PutBehind on a full table (finding HputBeforeAlias): " + hits[0], {"argv": [ht, "directed", "putbefore-alias"]}, "directed")
         for f in f_rnd:
             info, rows, val, crash = f.result()
             if crash: violation(crash["what"], crash["replay"], "random-crash"); notes["random_configs"].append(dict(info, crashed=True)); continue
